@@ -622,3 +622,113 @@ pub proof fn lemma_ctx_counts_push(ls: Seq<HunkLineSpec>, p: int, s: int, nc: bo
         if s + 1 < l1.len() { assert(l1[l1.len() - (s + 1) - 1] == ls[ls.len() - s - 1]); }
     }
 }
+
+// ---------------------------------------------------------------------------------------------- C01: header round trip
+// What diff WRITES for a hunk header is read back as the numbers it was written from (statement level, over the defined
+// specification functions; the real parser is proved equal to them by C01.header / C11.number / C01.line_and_count).
+
+/// decimal digits of n, most significant first, no leading zero (0 is "0")
+pub open spec fn dec_digits(n: nat) -> Seq<u8>
+    decreases n
+{
+    if n < 10 { seq![(48 + n) as u8] } else { dec_digits(n / 10).push((48 + n % 10) as u8) }
+}
+
+pub proof fn lemma_dec_digits(n: nat)
+    ensures
+        dec_digits(n).len() >= 1,
+        sh_all_digits(dec_digits(n)),
+        sh_dec_value(dec_digits(n)) == n,
+    decreases n
+{
+    if n < 10 {
+        let s = dec_digits(n);
+        assert(s.len() == 1 && s[0] == (48 + n) as u8);
+        assert(s.drop_last().len() == 0);
+        assert(sh_dec_value(s.drop_last()) == 0);
+        assert(s.last() == (48 + n) as u8);
+    } else {
+        lemma_dec_digits(n / 10);
+        let p = dec_digits(n / 10);
+        let s = p.push((48 + n % 10) as u8);
+        assert(s.drop_last() =~= p);
+        assert(s.last() == (48 + n % 10) as u8);
+        assert forall|i: int| 0 <= i < s.len() implies 48 <= #[trigger] s[i] <= 57 by {
+            if i < p.len() { assert(s[i] == p[i]); }
+        }
+        assert(n == (n / 10) * 10 + n % 10) by (nonlinear_arith);
+    }
+}
+
+/// a number written in decimal, followed by something that does not start with a digit, is read back by spec_number
+pub proof fn lemma_number_round_trip(n: nat, rest: Seq<u8>)
+    requires
+        n <= usize::MAX,
+        rest.len() == 0 || !digit_byte(rest[0]),
+    ensures
+        spec_number(dec_digits(n) + rest) == Some((rest, n as usize)),
+{
+    lemma_dec_digits(n);
+    let d = dec_digits(n);
+    let s = d + rest;
+    let k = d.len() as int;
+    assert forall|i: int| 0 <= i < k implies digit_byte(#[trigger] s[i]) by { assert(s[i] == d[i]); }
+    if k < s.len() { assert(s[k] == rest[0]); }
+    lemma_digit_run(s, k);
+    assert(s.subrange(0, k) =~= d);
+    assert(s.subrange(k, s.len() as int) =~= rest);
+}
+
+/// "N,M" as diff writes a range (always with the count here; the ",M"-less short form is covered by line_and_count_spec)
+pub open spec fn render_range(line: nat, count: nat) -> Seq<u8> { dec_digits(line) + seq![44u8] + dec_digits(count) }
+
+pub proof fn lemma_range_round_trip(line: nat, count: nat, rest: Seq<u8>)
+    requires
+        line <= usize::MAX, count <= usize::MAX,
+        rest.len() == 0 || !digit_byte(rest[0]),
+    ensures
+        line_and_count_spec(render_range(line, count) + rest) == Some((rest, (line as usize, count as usize))),
+{
+    let tail = seq![44u8] + dec_digits(count) + rest;
+    assert(render_range(line, count) + rest =~= dec_digits(line) + tail);
+    assert(tail[0] == 44u8);
+    lemma_number_round_trip(line, tail);
+    assert(tail.subrange(1, tail.len() as int) =~= dec_digits(count) + rest);
+    lemma_number_round_trip(count, rest);
+}
+
+/// "@@ -N,M +N,M @@\n" as diff writes it (no section heading)
+pub open spec fn render_header(rl: nat, rc: nat, al: nat, ac: nat) -> Seq<u8> {
+    seq![64u8, 64u8, 32u8, 45u8] + render_range(rl, rc) + seq![32u8, 43u8] + render_range(al, ac) + seq![32u8, 64u8, 64u8, 10u8]
+}
+
+pub proof fn lemma_header_round_trip(rl: nat, rc: nat, al: nat, ac: nat, rest: Seq<u8>)
+    requires rl <= usize::MAX, rc <= usize::MAX, al <= usize::MAX, ac <= usize::MAX,
+    ensures
+        spec_hunk_header(render_header(rl, rc, al, ac) + rest) == Some(HeaderSpec { remove_line: rl as usize, remove_count: rc as usize,
+            add_line: al as usize, add_count: ac as usize, function: Seq::empty(), rest: rest }),
+{
+    let input = render_header(rl, rc, al, ac) + rest;
+    let t3 = seq![32u8, 64u8, 64u8, 10u8] + rest;
+    let t2 = seq![32u8, 43u8] + render_range(al, ac) + t3;
+    let t1 = render_range(rl, rc) + t2;
+    assert(input =~= seq![64u8, 64u8, 32u8, 45u8] + t1);
+    assert(input.subrange(0, 4) =~= seq![64u8, 64u8, 32u8, 45u8]);
+    assert(after(input, 4) =~= t1);
+    assert(t2[0] == 32u8);
+    lemma_range_round_trip(rl, rc, t2);
+    assert(t2.subrange(0, 2) =~= seq![32u8, 43u8]);
+    assert(after(t2, 2) =~= render_range(al, ac) + t3);
+    assert(t3[0] == 32u8);
+    lemma_range_round_trip(al, ac, t3);
+    assert(t3.subrange(0, 2) =~= seq![32u8, 64u8]);
+    let i4 = after(t3, 2);
+    assert(i4 =~= seq![64u8, 10u8] + rest);
+    assert(i4[0] == 64u8 && i4[1] == 10u8);
+    assert(!prefix_is(i4, seq![64u8, 32u8])) by {
+        if prefix_is(i4, seq![64u8, 32u8]) { assert(i4.subrange(0, 2)[1] == 32u8); assert(i4.subrange(0, 2)[1] == i4[1]); }
+    }
+    assert(is_first_index(i4, 10, 1));
+    lemma_lf_index(i4, 1);
+    assert(i4.subrange(2, i4.len() as int) =~= rest);
+}
